@@ -848,7 +848,7 @@ Definition olen (l : list value) : nat := match l with [] => 1 | _ => List.lengt
 
 Definition call2_spec (f : prim2) (la lb l : list value) : Prop :=
   match f with
-  | POptEq => List.length l = olen la * olen lb
+  | POptEq | POptNeq => List.length l = olen la * olen lb
   | PIn => List.length l = List.length la
   | PAGet => List.length l <= List.length la * List.length lb /\
              (forall v, In v l -> exists x y, In (VArr x y) la /\ (v = x \/ v = y))
@@ -857,6 +857,32 @@ Definition call2_spec (f : prim2) (la lb l : list value) : Prop :=
 
 Lemma insts_O_length : forall l, List.length (insts OptionalType l) = olen l.
 Proof. intros [|a l]; cbn; auto. now rewrite map_length. Qed.
+
+Lemma opt_call_length : forall (f : prim2) la lb l,
+  (forall ia ib, In ia (insts OptionalType la) -> In ib (insts OptionalType lb) ->
+     exists v, sem2 f ia ib = Some [v]) ->
+  fmapM (fun ia => fmapM (fun ib => sem2 f ia ib) (insts OptionalType lb)) (insts OptionalType la) = Some l ->
+  List.length l = olen la * olen lb.
+Proof.
+  intros f la lb l G H. rewrite <- !insts_O_length.
+  assert (Le : List.length l <= List.length (insts OptionalType la) * List.length (insts OptionalType lb)).
+  { eapply fmapM_length_le with (k := List.length (insts OptionalType lb)); [exact H|].
+    intros a p Ha Hp. rewrite <- (Nat.mul_1_r (List.length (insts OptionalType lb))).
+    eapply fmapM_length_le; [exact Hp|]. intros b q Hb Hq. destruct (G _ _ Ha Hb) as (v & E).
+    cbv beta in Hq. rewrite E in Hq. inversion Hq; subst; cbn; lia. }
+  assert (Ge : List.length (insts OptionalType la) * List.length (insts OptionalType lb) <= List.length l).
+  { eapply fmapM_length_ge with (k := List.length (insts OptionalType lb)); [exact H|].
+    intros a p Ha Hp. rewrite <- (Nat.mul_1_r (List.length (insts OptionalType lb))).
+    eapply fmapM_length_ge; [exact Hp|]. intros b q Hb Hq. destruct (G _ _ Ha Hb) as (v & E).
+    cbv beta in Hq. rewrite E in Hq. inversion Hq; subst; cbn; lia. }
+  lia.
+Qed.
+
+Lemma insts_O_shape : forall l0 i, In i (insts OptionalType l0) -> i = [] \/ exists v, i = [v].
+Proof.
+  intros [|z l0] i Hi; cbn in Hi. - destruct Hi as [<-|[]]; auto.
+  - right. destruct Hi as [<-|Hi]; eauto. apply in_map_iff in Hi. destruct Hi as (w & <- & _); eauto.
+Qed.
 
 Lemma call2_eval_spec : forall f la lb l,
   (let '(ma, mb, _) := sig2 f in
@@ -867,25 +893,11 @@ Proof.
   destruct f; cbn [sig2 insts] in H; cbv beta iota in H; cbn [call2_spec];
     try (eapply fmapM2_singletons with (g := sem2 _); [|exact H]; intros x y; reflexivity).
   - (* POptEq *)
-    rewrite <- !insts_O_length.
-    assert (G : forall ia ib, In ia (insts OptionalType la) -> In ib (insts OptionalType lb) ->
-                exists v, sem2 POptEq ia ib = Some [v]).
-    { intros ia ib Ha Hb.
-      assert (S : forall l0 i, In i (insts OptionalType l0) -> i = [] \/ exists v, i = [v]).
-      { intros [|z l0] i Hi; cbn in Hi. - destruct Hi as [<-|[]]; auto.
-        - right. destruct Hi as [<-|Hi]; eauto. apply in_map_iff in Hi. destruct Hi as (w & <- & _); eauto. }
-      destruct (S _ _ Ha) as [->|(x & ->)]; destruct (S _ _ Hb) as [->|(y & ->)]; cbn; eauto. }
-    assert (Le : List.length l <= List.length (insts OptionalType la) * List.length (insts OptionalType lb)).
-    { eapply fmapM_length_le with (k := List.length (insts OptionalType lb)); [exact H|].
-      intros a p Ha Hp. rewrite <- (Nat.mul_1_r (List.length (insts OptionalType lb))).
-      eapply fmapM_length_le; [exact Hp|]. intros b q Hb Hq. destruct (G _ _ Ha Hb) as (v & E).
-      cbv beta in Hq. rewrite E in Hq. inversion Hq; subst; cbn; lia. }
-    assert (Ge : List.length (insts OptionalType la) * List.length (insts OptionalType lb) <= List.length l).
-    { eapply fmapM_length_ge with (k := List.length (insts OptionalType lb)); [exact H|].
-      intros a p Ha Hp. rewrite <- (Nat.mul_1_r (List.length (insts OptionalType lb))).
-      eapply fmapM_length_ge; [exact Hp|]. intros b q Hb Hq. destruct (G _ _ Ha Hb) as (v & E).
-      cbv beta in Hq. rewrite E in Hq. inversion Hq; subst; cbn; lia. }
-    lia.
+    eapply opt_call_length; [|exact H]. intros ia ib Ha Hb.
+    destruct (insts_O_shape _ _ Ha) as [->|(x & ->)]; destruct (insts_O_shape _ _ Hb) as [->|(y & ->)]; cbn; eauto.
+  - (* POptNeq *)
+    eapply opt_call_length; [|exact H]. intros ia ib Ha Hb.
+    destruct (insts_O_shape _ _ Ha) as [->|(x & ->)]; destruct (insts_O_shape _ _ Hb) as [->|(y & ->)]; cbn; eauto.
   - (* PIn *)
     assert (E : l = map (fun x => VBool (mem x lb)) la).
     { eapply fmapM_singletons with (g := fun ia => fmapM (fun ib => sem2 PIn ia ib) [lb]); [|exact H].
@@ -923,6 +935,9 @@ Proof.
          try lia; try nia;
          destruct (List.length la) as [|[|?]]; destruct (List.length lb) as [|[|?]]; cbn in *; lia).
   - (* POptEq *) rewrite S.
+    destruct ca, cb_; cbn in H; inversion H; subst; cbn in *; try contradiction; auto;
+      destruct la as [|? [|? ?]]; destruct lb as [|? [|? ?]]; cbn in *; try lia.
+  - (* POptNeq *) rewrite S.
     destruct ca, cb_; cbn in H; inversion H; subst; cbn in *; try contradiction; auto;
       destruct la as [|? [|? ?]]; destruct lb as [|? [|? ?]]; cbn in *; try lia.
   - (* PIn *) rewrite S. destruct ca, cb_; cbn in H; inversion H; subst; cbn in *; try contradiction; auto; lia.
